@@ -217,13 +217,30 @@ def _main(paths):
     return [x for x in paths if not x[0].startswith(("const:", "builtin:", "global:")) and U.is_main_flow(x)]
 
 
+def _format_rounded(paths) -> bool:
+    """the value was pushed through str.format / format() (a fixed number of decimals): what comes out is the ROUNDED value"""
+    return any(not x[0].startswith(("const:", "builtin:", "global:")) and
+               any(st.endswith(":format") and st.startswith(("kw:", "arg")) for st in x) for x in paths)
+
+
 def _through_round(paths) -> bool:
+    if _format_rounded(paths):
+        return True
     paths = _main(paths)
     return bool(paths) and all("arg0:round" in x for x in paths)
 
 
 def _bases(paths) -> Set[tuple]:
-    return {tuple(s for s in x if s not in _NUM_WRAPPERS) for x in _main(paths)}
+    out = {tuple(s for s in x if s not in _NUM_WRAPPERS) for x in _main(paths)}
+    # a value handed to str.format as a (keyword) argument: the formatted text is a rounding of that value
+    for x in paths:
+        if x[0].startswith(("const:", "builtin:", "global:")):
+            continue
+        if any(st.endswith(":format") and st.startswith(("kw:", "arg")) for st in x):
+            i = next(k for k, st in enumerate(x) if st.endswith(":format") and st.startswith(("kw:", "arg")))
+            if U.is_main_flow(x[:i]) and not any("digit" in st or "prec" in st for st in x[i:i + 1]):
+                out.add(tuple(s for s in x[:i] if s not in _NUM_WRAPPERS))
+    return out
 
 
 class _IntTests:
@@ -944,9 +961,37 @@ def rule_eliminate(repo: Repo) -> RuleResult:
     return r
 
 
+def rule_digits(repo: Repo, rid: str = "C13.digits", modules=(NS,), pname: str = "decimal_digits") -> RuleResult:
+    """option threading: a printer that is told how many decimals to keep hands that number to every function of the same module it
+    calls that also takes it (otherwise nested parts are printed at the callee's default precision)"""
+    r = RuleResult(rid, f"every function with a `{pname}` parameter passes it on to the functions of the same module that take one",
+                   "up to rounding of coefficients at the REQUESTED number of decimals")
+    mods = [repo.module(m) for m in modules]
+    for f in repo.all_funcs():
+        if f.mod not in mods or pname not in f.params:
+            continue
+        calls = 0
+        for c in L.calls_in(f.node):
+            _cat, tg = repo.resolve_call(f, c)
+            if any(t is not None and t.mod in mods and pname in t.params for _k, t, _c in tg):
+                calls += 1
+        if not calls:
+            continue
+        r.site(f.qn)
+        bad = [(c, t, what) for c, t, what in L.unthreaded_options(repo, f, pname) if t.mod in mods]
+        if bad:
+            c, t, what = bad[0]
+            r.fail(Finding(rid, f, f"option-dropped:{pname}", f"{unparse(c, 60)} does not pass `{pname}` on to {t.qn.split('::')[-1]} "
+                           f"({'it passes ' + what if what else 'the callee uses its default'}): that part is rounded at another precision", node=c))
+        else:
+            r.ok({"function": f.qn, "calls_with_option": calls})
+    r.require_sites(1)
+    return r
+
+
 def rules(repo: Repo, tier: str) -> List[RuleResult]:
     env = c12.rule_env(repo)
     env.rule = "C13.env"
     for fd in env.findings:
         fd.rule = "C13.env"
-    return [rule_vocab(repo), rule_mangle(repo), rule_round(repo), rule_atoms(repo), rule_sides(repo), rule_eliminate(repo), env]
+    return [rule_vocab(repo), rule_mangle(repo), rule_round(repo), rule_atoms(repo), rule_sides(repo), rule_eliminate(repo), rule_digits(repo), env]
